@@ -500,7 +500,9 @@ func Run(c *Case, dump bool) *Result {
 		if before > 0 && before+len(piece) > res.MaxNeed {
 			res.MaxNeed = before + len(piece)
 		}
-		if c.ReadLimit > 0 {
+		// the retention bound is about what the parser keeps for the next read; after an error
+		// the connection is closed and the buffer released, so only successful calls count
+		if c.ReadLimit > 0 && err == nil {
 			if o := after - (c.ReadLimit + len(piece)); o > res.RetainOver {
 				res.RetainOver = o
 			}
